@@ -336,6 +336,41 @@ pub fn wide_floats(quick: bool) -> Vec<f64> {
     }
     v
 }
+/// every power of two and its neighbours, their negatives, the powers of ten, and a few values without
+/// structure: operands on which a shift, mask, digit or special-case shortcut would show
+pub fn pattern_ints() -> Vec<i64> {
+    let mut v: Vec<i64> = vec![];
+    for k in 0..63u32 {
+        let p = 1i64 << k;
+        v.extend([p, p - 1, p + 1, -p, -p - 1, 1 - p]);
+    }
+    v.extend([i64::MIN, i64::MAX, i64::MIN + 1, i64::MAX - 1]);
+    let mut t = 1i64;
+    for _ in 0..19 {
+        v.extend([t, -t, t - 1]);
+        t = t.saturating_mul(10);
+    }
+    v.extend([12_345, 1_000_003, 3_037_000_499, 3_037_000_500, 6_700_417, 0x5555_5555_5555_5555, 0x3333_3333_3333_3333, -0x0123_4567_89ab_cdef, 600_851_475_143, 37, 1009]);
+    v.sort();
+    v.dedup();
+    v
+}
+pub fn pattern_floats() -> Vec<f64> {
+    let mut v: Vec<f64> = vec![];
+    for k in (-1074i32..=1023).step_by(7).chain([-1074, -1023, -1022, -53, -52, -1, 0, 1, 31, 32, 52, 53, 62, 63, 64, 1023]) {
+        let p = 2f64.powi(k);
+        v.extend([p, -p]);
+    }
+    for k in [31i32, 32, 52, 53, 62, 63, 64] {
+        let p = 2f64.powi(k);
+        v.extend([p - 1.0, p + 1.0, -(p + 1.0), p * (1.0 - f64::EPSILON), p * (1.0 + f64::EPSILON), -p * (1.0 + f64::EPSILON), p + 0.5, p - 0.5]);
+    }
+    v.extend([0.1, 1.0 / 3.0, std::f64::consts::PI, std::f64::consts::E, 1e15, 1e16, 123456.789, -7.25, 0.5, 1.5, 2.5, -0.5, -1.5, f64::from_bits(0x7ff8_0000_0000_0001), f64::from_bits(0xfff0_0000_0000_0001)]);
+    v.sort_by(|a, b| a.to_bits().cmp(&b.to_bits()));
+    v.dedup_by(|a, b| a.to_bits() == b.to_bits());
+    v
+}
+
 pub fn value_sweep(mode: Mode, run: &mut Run) -> Stats {
     let quick = run.quick();
     let ints = wide_ints(quick);
@@ -397,6 +432,44 @@ pub fn value_sweep(mode: Mode, run: &mut Run) -> Stats {
         for (k, w, r) in viols {
             run.violation(k, w, r);
         }
+    }
+    // all ordered pairs of the pattern values (third operand fixed), every int / bool instruction; likewise floats
+    {
+        let pints = pattern_ints();
+        let pfloats = pattern_floats();
+        let res2 = mcx::par_map(pints.len() + pfloats.len(), |k| {
+            let mut st = Stats::default();
+            let mut viols: Vec<(String, String, Value)> = vec![];
+            let mut base = RState::empty([16; 4]);
+            base.inputs = default_inputs();
+            if k < pints.len() {
+                let y = pints[k];
+                for x in &pints {
+                    base.int = vec![-5, y, *x];
+                    base.float = vec![0.5];
+                    base.boolean = vec![k % 2 == 0];
+                    one(&mut st, &mut viols, &base, &int_instrs, &int_names);
+                }
+            } else {
+                let y = pfloats[k - pints.len()];
+                for x in &pfloats {
+                    base.int = vec![3];
+                    base.float = vec![1.25, y, *x];
+                    base.boolean = vec![k % 2 == 0];
+                    one(&mut st, &mut viols, &base, &float_instrs, &float_names);
+                }
+            }
+            mcx::watch::leave();
+            (st, viols)
+        });
+        for (st, viols) in res2 {
+            total.merge(&st);
+            for (k, w, r) in viols {
+                run.violation(k, w, r);
+            }
+        }
+        run.bound("d.pattern_int_values", json!(pints.len()));
+        run.bound("d.pattern_float_values", json!(pfloats.len()));
     }
     run.note("d.states", json!(total.states));
     run.note("d.transitions", json!(total.transitions));
